@@ -17,6 +17,7 @@ import (
 	"github.com/rs/zerolog"
 	"github.com/vektra/mockery/v3/config"
 	"github.com/vektra/mockery/v3/internal/stackerr"
+	"github.com/vektra/mockery/v3/internal/verifhook"
 	"github.com/vektra/mockery/v3/template"
 	"github.com/xeipuuv/gojsonschema"
 	"golang.org/x/tools/go/packages"
@@ -460,17 +461,22 @@ func (g *TemplateGenerator) Generate(
 	templateString, schema, err := g.getTemplate(ctx)
 	if err != nil {
 		log.Error().Msg("could not get template")
+		verifhook.Emit("Stage", "stage", "template", "ok", false)
 		return nil, fmt.Errorf("getting template: %w", err)
 	}
+	verifhook.Emit("Stage", "stage", "template", "ok", true, "template", g.templateName, "schema", g.templateSchema, "hasschema", schema != nil)
 	if schema != nil {
 		if err := validateSchema(ctx, data, schema); err != nil {
 			log.Error().Msg("failed to validate schema")
+			verifhook.Emit("Stage", "stage", "schema", "ok", false)
 			return nil, fmt.Errorf("validating schema: %w", err)
 		}
 	}
 
+	verifhook.Emit("Stage", "stage", "schema", "ok", true, "validated", schema != nil)
 	templ, err := template.New(templateString, g.templateName)
 	if err != nil {
+		verifhook.Emit("Stage", "stage", "exec", "ok", false)
 		return []byte{}, fmt.Errorf("creating new template: %w", err)
 	}
 
@@ -478,12 +484,15 @@ func (g *TemplateGenerator) Generate(
 	log.Debug().Msg("executing template")
 	if err := templ.Execute(&buf, data); err != nil {
 		log.Error().Msg("failed to execute template")
+		verifhook.Emit("Stage", "stage", "exec", "ok", false)
 		return []byte{}, fmt.Errorf("executing template: %w", err)
 	}
 
+	verifhook.Emit("Stage", "stage", "exec", "ok", true)
 	log.Debug().Msg("formatting file in-memory")
 	formatted, err := g.format(buf.Bytes())
 	if err != nil {
+		verifhook.Emit("Stage", "stage", "format", "ok", false)
 		scanner := bufio.NewScanner(strings.NewReader(buf.String()))
 		for i := 1; scanner.Scan(); i++ {
 			fmt.Printf("%d:\t%s\n", i, scanner.Text())
@@ -491,6 +500,7 @@ func (g *TemplateGenerator) Generate(
 		log.Err(err).Msg("can't format mock file in-memory")
 		return []byte{}, fmt.Errorf("formatting mock file: %w", err)
 	}
+	verifhook.Emit("Stage", "stage", "format", "ok", true, "formatter", string(g.formatter))
 	return formatted, nil
 }
 
